@@ -5,10 +5,11 @@ CONSTANTS
   NWChoices = {2}
   ModeChoices = {TRUE, FALSE}
   FaultChoices = {"none", "boot", "poll"}
-  PoolChoices = {2}
+  PoolChoices = {1, 2}
   KindChoices = {"async", "blocking"}
   BodyPanics = TRUE
   BodyUsesPool = TRUE
+  JoinerOnPool = FALSE
 SPECIFICATION FairSpec
 INVARIANTS TypeOK ExactlyOnce ResultDelivery JoinedFirst SeqNoOverlap SeqAllFinished ConcNothingLeft JoinAfterExit
 PROPERTIES EventuallyStarted EventuallyPooledStarted JoinReturns ReceiverResolves
